@@ -69,13 +69,22 @@ def gen_scale(rng):
             'ops': []}
     weights = dict(WEIGHTS, create=40, add=30, clear=0.3, process=6)
     wl.gen_ops(rng, case, 700, weights)
+    # query (sweep), deferred deletions, process, query again - with nothing
+    # else in between
+    ops = case['ops']
+    for pos in sorted(rng.sample(range(150, 700), 10), reverse=True):
+        burst = [['process', 1]] + [
+            ['delete', ['x', rng.randrange(len(case['ids']))], False]
+            for _ in range(6)] + [['delete', ['a', rng.randrange(4)], False],
+                                  ['process', 1]]
+        ops[pos:pos] = burst
     return case
 
 
 def gen_cases(tier, seed):
     for i in range(3 if tier == 'quick' else 48):
         yield gen_scale(random.Random(f'C01/scale/{seed}/{tier}/{i}'))
-    n = 1500 if tier == 'quick' else 16 * 6000
+    n = 2400 if tier == 'quick' else 16 * 6000
     for i in range(n):
         yield gen_one(random.Random(f'C01/{seed}/{tier}/{i}'), tier)
 
@@ -143,7 +152,8 @@ class C01Driver(wl.Driver):
                         '(exact type first)', expected=legal, observed=uid)
                 return
         every = self.case.get('sweep_every', 1)
-        if every == 1 or at % every == 0 or at == len(self.case['ops']) - 1:
+        if every == 1 or at % every == 0 or op[0] in ('process', 'clear') \
+                or at == len(self.case['ops']) - 1:
             self.sweep(at)
             if every > 1:
                 self.res.tags['scale_entities'].add(
